@@ -53,13 +53,13 @@ Definition count_str (n : string) (l : list string) : nat := List.length (filter
 
 Lemma db_get_fold_add c0 L : forall d c n,
   db_get (fold_left (fun d n => add_terrapin d c0 n) L d) c n =
-  if String.eqb c c0 then option_map (iter_n (count_str n L) (append_at 2 terrapin_warning)) (db_get d c n) else db_get d c n.
+  if String.eqb c c0 then option_map (iter_n (count_str n L) (add_warn_once terrapin_warning)) (db_get d c n) else db_get d c n.
 Proof.
   induction L as [|x L IH]; intros d c n; cbn [fold_left].
   - unfold count_str. cbn. destruct (String.eqb c c0); [destruct (db_get d c n); reflexivity|reflexivity].
   - rewrite IH.
     assert (Hx: db_get (add_terrapin d c0 x) c n =
-                if String.eqb c c0 && String.eqb n x then option_map (append_at 2 terrapin_warning) (db_get d c n) else db_get d c n)
+                if String.eqb c c0 && String.eqb n x then option_map (add_warn_once terrapin_warning) (db_get d c n) else db_get d c n)
       by (unfold add_terrapin; apply db_get_update).
     rewrite Hx.
     destruct (String.eqb c c0) eqn:Ec; cbn [andb]; [|reflexivity].
@@ -68,20 +68,48 @@ Proof.
     + reflexivity.
 Qed.
 
-Lemma warns_iter k e : warns (iter_n k (append_at 2 terrapin_warning) e) = warns e ++ repeat terrapin_warning k.
+Lemma mem_In0 s l : mem s l = true <-> In s l.
 Proof.
-  revert e. induction k as [|k IH]; intros e; cbn [iter_n repeat]; [rewrite app_nil_r; reflexivity|].
-  rewrite IH. unfold warns. rewrite comp_append_at_same. rewrite <- app_assoc. reflexivity.
+  induction l as [|x l IH]; cbn [mem In]; [split; [discriminate|tauto]|].
+  destruct (String.eqb s x) eqn:E.
+  - apply String.eqb_eq in E. subst. tauto.
+  - rewrite IH. split; [tauto|]. intros [->|H]; [rewrite String.eqb_refl in E; discriminate|exact H].
 Qed.
-Lemma comp_iter_other k j e : j <> 2%nat -> comp (iter_n k (append_at 2 terrapin_warning) e) j = comp e j.
+Lemma warns_add_once e : warns (add_warn_once terrapin_warning e) = if mem terrapin_warning (warns e) then warns e else warns e ++ [terrapin_warning].
+Proof. unfold add_warn_once. destruct (mem terrapin_warning (warns e)) eqn:E; [reflexivity|]. unfold warns. apply comp_append_at_same. Qed.
+Lemma add_once_idem e : mem terrapin_warning (warns e) = true -> add_warn_once terrapin_warning e = e.
+Proof. intros H. unfold add_warn_once. rewrite H. reflexivity. Qed.
+(* however often the name occurs, the warning is there once: k = 0 leaves the entry alone, k > 0 adds it unless it is already present *)
+Lemma warns_iter k e : warns (iter_n k (add_warn_once terrapin_warning) e) =
+  if (Nat.eqb k 0) || mem terrapin_warning (warns e) then warns e else warns e ++ [terrapin_warning].
+Proof.
+  revert e. induction k as [|k IH]; intros e; cbn [iter_n Nat.eqb orb]; [reflexivity|].
+  rewrite IH, warns_add_once.
+  destruct (mem terrapin_warning (warns e)) eqn:E.
+  - rewrite E, orb_true_r. reflexivity.
+  - assert (H: mem terrapin_warning (warns e ++ [terrapin_warning]) = true).
+    { apply mem_In0. apply in_app_iff. right. left. reflexivity. }
+    rewrite H, orb_true_r. reflexivity.
+Qed.
+Lemma in_warns_iter k e : In terrapin_warning (warns (iter_n k (add_warn_once terrapin_warning) e)) <-> In terrapin_warning (warns e) \/ (0 < k)%nat.
+Proof.
+  rewrite warns_iter. destruct k as [|k]; cbn [Nat.eqb orb].
+  - split; [tauto|intros [H|H]; [exact H|lia]].
+  - destruct (mem terrapin_warning (warns e)) eqn:E.
+    + apply mem_In0 in E. split; [tauto|intros _; exact E].
+    + split; [intros _; right; lia|intros _; apply in_app_iff; right; left; reflexivity].
+Qed.
+Lemma comp_add_once_other j e : j <> 2%nat -> comp (add_warn_once terrapin_warning e) j = comp e j.
+Proof. intros Hj. unfold add_warn_once. destruct (mem _ _); [reflexivity|]. apply comp_append_at_other. congruence. Qed.
+Lemma comp_iter_other k j e : j <> 2%nat -> comp (iter_n k (add_warn_once terrapin_warning) e) j = comp e j.
 Proof.
   intros Hj. revert e. induction k as [|k IH]; intros e; cbn [iter_n]; [reflexivity|].
-  rewrite IH. apply comp_append_at_other. congruence.
+  rewrite IH. apply comp_add_once_other. exact Hj.
 Qed.
-Lemma versions_iter k e : versions (iter_n k (append_at 2 terrapin_warning) e) = versions e.
+Lemma versions_iter k e : versions (iter_n k (add_warn_once terrapin_warning) e) = versions e.
 Proof.
   revert e. induction k as [|k IH]; intros e; cbn [iter_n]; [reflexivity|].
-  rewrite IH. unfold versions. apply nth_append_at_other. discriminate.
+  rewrite IH. unfold add_warn_once. destruct (mem _ _); [reflexivity|]. unfold versions. apply nth_append_at_other. discriminate.
 Qed.
 
 (* ---------- the marked sets ---------- *)
@@ -131,8 +159,8 @@ Definition gexn : string := "diffie-hellman-group-exchange-sha256".
 Definition edit_of (ca : bool) (bs : option string) (k : kexlists) (dh : list (string * Z)) (c n : string) (e : desc) : desc :=
   let e1 := if openssh_2048 bs k dh && String.eqb c "kex" && String.eqb n gexn then append_at 3 openssh_2048_note e else e in
   if has_marker ca k then e1
-  else if String.eqb c "enc" then iter_n (count_str n (marked_enc ca k)) (append_at 2 terrapin_warning) e1
-  else if String.eqb c "mac" then iter_n (count_str n (marked_mac ca k)) (append_at 2 terrapin_warning) e1
+  else if String.eqb c "enc" then iter_n (count_str n (marked_enc ca k)) (add_warn_once terrapin_warning) e1
+  else if String.eqb c "mac" then iter_n (count_str n (marked_mac ca k)) (add_warn_once terrapin_warning) e1
   else e1.
 
 Theorem final_db_pointwise ca bs k dh rn d c n :
@@ -194,29 +222,19 @@ Proof.
   - split; [intros [e [E H]]; injection E as <-; rewrite Hw1 in H; tauto|intros [H _]; discriminate].
   - destruct (String.eqb c "enc") eqn:Ee.
     + apply String.eqb_eq in Ee. subst c. split.
-      * intros [e [E H]]. injection E as <-. rewrite warns_iter, Hw1 in H. apply in_app_iff in H.
-        destruct H as [H|H]; [tauto|]. split; [reflexivity|].
-        assert (Hc: (0 < count_str n (marked_enc ca k))%nat).
-        { destruct (count_str n (marked_enc ca k)); [destruct H|lia]. }
+      * intros [e [E H]]. injection E as <-. apply in_warns_iter in H. rewrite Hw1 in H.
+        destruct H as [H|Hc]; [tauto|]. split; [reflexivity|].
         apply count_pos, marked_enc_spec in Hc. destruct Hc as [[A B]|[A [B C]]]; [left; auto|right; left; auto].
       * intros [_ [[_ [A B]]|[[_ [A [B C]]]|[E _]]]]; try discriminate.
-        -- eexists; split; [reflexivity|]. rewrite warns_iter. apply in_app_iff. right.
-           assert (Hc: (0 < count_str n (marked_enc ca k))%nat) by (apply count_pos, marked_enc_spec; left; auto).
-           destruct (count_str n (marked_enc ca k)); [lia|left; reflexivity].
-        -- eexists; split; [reflexivity|]. rewrite warns_iter. apply in_app_iff. right.
-           assert (Hc: (0 < count_str n (marked_enc ca k))%nat) by (apply count_pos, marked_enc_spec; right; auto).
-           destruct (count_str n (marked_enc ca k)); [lia|left; reflexivity].
+        -- eexists; split; [reflexivity|]. apply in_warns_iter. right. apply count_pos, marked_enc_spec; left; auto.
+        -- eexists; split; [reflexivity|]. apply in_warns_iter. right. apply count_pos, marked_enc_spec; right; auto.
     + destruct (String.eqb c "mac") eqn:Em.
       * apply String.eqb_eq in Em. subst c. split.
-        -- intros [e [E H]]. injection E as <-. rewrite warns_iter, Hw1 in H. apply in_app_iff in H.
-           destruct H as [H|H]; [tauto|]. split; [reflexivity|].
-           assert (Hc: (0 < count_str n (marked_mac ca k))%nat).
-           { destruct (count_str n (marked_mac ca k)); [destruct H|lia]. }
+        -- intros [e [E H]]. injection E as <-. apply in_warns_iter in H. rewrite Hw1 in H.
+           destruct H as [H|Hc]; [tauto|]. split; [reflexivity|].
            apply count_pos, marked_mac_spec in Hc. right. right. tauto.
         -- intros [_ [[E _]|[[E _]|[_ H]]]]; try discriminate.
-           eexists; split; [reflexivity|]. rewrite warns_iter. apply in_app_iff. right.
-           assert (Hc: (0 < count_str n (marked_mac ca k))%nat) by (apply count_pos, marked_mac_spec; exact H).
-           destruct (count_str n (marked_mac ca k)); [lia|left; reflexivity].
+           eexists; split; [reflexivity|]. apply in_warns_iter. right. apply count_pos, marked_mac_spec; exact H.
       * split.
         -- intros [e [E H]]. injection E as <-. rewrite Hw1 in H. tauto.
         -- intros [_ [[E _]|[[E _]|[E _]]]]; subst c; discriminate.
